@@ -252,6 +252,17 @@ example :
   intro rd
   exact ⟨by rfl, by rfl, by rfl⟩
 
+/-- non-vacuity of the CASE multiplexer: three inputs on a 2-bit selector; selector "10" (= 2) picks the third input, selector "11"
+has no input and yields the `WHEN OTHERS` value "XX". -/
+example :
+    let rd : Rd := { obj := fun n => if n = "s" then some (.uns [.O, .I]) else if n = "t" then some (.uns [.I, .I]) else none,
+                     ev := fun _ => false, last := fun _ => none, ty := fun n => if n = "v" then some (.uns 2) else none }
+    let stmt (sel : String) := muxCaseStmt true "v" (.name sel) 2 (muxOthers .uns 2) [.str [.O, .O], .str [.I, .O], .str [.O, .I]]
+    (execStmt rd {} (stmt "s")).map (·.vars) = .ok [("v", .uns [.O, .I])] ∧
+    (execStmt rd {} (stmt "t")).map (·.vars) = .ok [("v", .uns [.X, .X])] := by
+  intro rd stmt
+  exact ⟨by rfl, by rfl⟩
+
 /-! ## (b) schedule_topological -/
 
 /-- **(b) schedule_topological.**  If the readiness list scheduler of `CombinatoryProcess::writeVHDL` (`Process.cpp:990-1046`,
